@@ -14,7 +14,7 @@ import (
 
 func init() {
 	PropertyText["C16"] = [2]string{
-		"Decides acquire/release pairing on all paths — the structural core of 'no per-seed leak': every response obtained in the fetch closure is drained-and-closed or handed to ProcessBody (which defers Body.Close) (R-RESP-CLOSE); every spooled temp file made in ProcessBody is closed on each error path or becomes the URL's body, bodies have that single producer, and closeBodies runs over the whole tree on every pass of the postprocessor (R-SPOOL-CLOSE); every goroutine started in per-seed code is joined by its spawner and every ticker stopped (R-GO-JOIN); the limiter table only grows past a len≥max test that evicts, and eviction always removes an entry when there is one (R-BUCKET-BOUND); the reactor's entry/token pairing (R-REACT-INSERT/RELEASE); limiter state under its lock (R-TB-LOCK).",
+		"Decides acquire/release pairing on all paths — the structural core of 'no per-seed leak': every response obtained in the fetch closure is drained-and-closed or handed to ProcessBody (which defers Body.Close) (R-RESP-CLOSE); every spooled temp file made in ProcessBody is closed on each error path or becomes the URL's body, bodies have that single producer, and closeBodies runs over the whole tree on every pass of the postprocessor (R-SPOOL-CLOSE); every goroutine started in per-seed code is joined by its spawner and every ticker stopped (R-GO-JOIN); the limiter table only grows past a len≥max test that evicts, and eviction always removes an entry when there is one (R-BUCKET-BOUND); the reactor's entry/token pairing (R-REACT-INSERT/RELEASE); limiter state under its lock (R-TB-LOCK). A body is detached only after Close (R-BODY-DETACH); the table's size test and insertion share a critical section; the fetch goroutine releases its slot on every exit (R-SEM-RELEASE).",
 		"Not decided: goroutine and file-descriptor counts as such (runtime quantities), temp-file deletion inside spooledtempfile.Close, leaks inside third-party modules.",
 	}
 	register(&core.Rule{ID: "R-RESP-CLOSE", Props: []string{"C16", "C02", "C03"}, Doc: "fetch closure: from a successful client.Do every path to the next attempt or to the closure's exit closes resp.Body (after draining it) or hands the response to ProcessBody", Run: ruleRespClose})
